@@ -57,6 +57,7 @@ type FuncCtx struct {
 	ghostLocals map[string]types.Object
 	curLoopIdx  []types.Object
 	globals     map[*types.Var]Val
+	pcParts     map[string][]string
 	hdrOnce     sync.Once
 	hdr         string
 	hdrLines    []string
@@ -159,6 +160,41 @@ func (fx *FuncCtx) pos(p token.Pos) string {
 	}
 	pp := fx.prog.fset.Position(p)
 	return fmt.Sprintf("%s:%d", shortFile(pp.Filename), pp.Line)
+}
+
+// pcDisjuncts flattens a merged path condition into the path conditions it was merged from.
+func (fx *FuncCtx) pcDisjuncts(pc Term, limit int) []Term {
+	out := []Term{pc}
+	for changed := true; changed && len(out) < limit; {
+		changed = false
+		var next []Term
+		for _, p := range out {
+			if parts, ok := fx.pcParts[p]; ok && len(out)+len(parts)-1 <= limit {
+				next = append(next, parts...)
+				changed = true
+			} else {
+				next = append(next, p)
+			}
+		}
+		out = next
+	}
+	return out
+}
+
+// obligeSplit emits one obligation per merged path (case split), so that ite-merged values collapse.
+func (fx *FuncCtx) obligeSplit(kind, label string, pos token.Pos, pc, goal Term, desc string) {
+	if goal == "true" || !strings.Contains(goal, "(forall ") && !strings.Contains(goal, "(exists ") && !mentionsAny(goal, fx.prog.seqMarkers()) {
+		fx.oblige(kind, label, pos, pc, goal, desc)
+		return
+	}
+	ds := fx.pcDisjuncts(pc, 8)
+	if len(ds) == 1 {
+		fx.oblige(kind, label, pos, pc, goal, desc)
+		return
+	}
+	for i, d := range ds {
+		fx.oblige(kind, fmt.Sprintf("%s/path%d", label, i+1), pos, d, goal, desc)
+	}
 }
 
 func (fx *FuncCtx) oblige(kind, label string, pos token.Pos, pc, goal Term, desc string) *Obligation {
